@@ -581,11 +581,27 @@ class PolyDomain:
         self.notes.append(("solve", name, B2.shape))
         return X.reshape(-1) if vec else X
 
+    def name_poly(self, x, label="o"):
+        """named intermediate v with the defining hypothesis v = x (same polynomial -> same name)"""
+        if x.is_const() or (len(x.t) == 1 and x.deg() <= 1):
+            return x
+        if x.vars() & set(self.inv_atoms):
+            return x
+        key = ("name", x)
+        if key in self.cache:
+            return self.cache[key]
+        v, vid_ = self.fresh(f"{label}__", ("name", x))
+        self.hyp(v - x, f"def {label}")
+        self.cache[key] = v
+        return v
+
     def lstsq(self, A, B):
         """minimum-norm least squares (A4): A^T A X = A^T B and X = A^T Y."""
         vec = B.ndim == 1
         B2 = B.reshape(-1, 1) if vec else B
         m, n = A.shape
+        # name the entries of the system matrix: keeps the degree of the normal equations at three
+        A = np.vectorize(lambda a: self.name_poly(a, "lsA"), otypes=[object])(A)
         X, name = self._fresh_mat("LS", (n, B2.shape[1]), "lstsq")
         Y, _ = self._fresh_mat("LSy", (m, B2.shape[1]), "lstsq_y")
         E = A.T.dot(A).dot(X) - A.T.dot(B2)
